@@ -557,8 +557,8 @@ fn total_main(args: &Args) {
             }
             // mutations of grammar-derived programs
             "mutate" => {
-                const JUNK: [&str; 24] = ["é", "😀", "\"", "\\", ";", "#", "x", "0x", ".", ".fill", ".blkw", ".stringz", ".break", ".end", ".orig", "#99999", "xFFFFF",
-                                           "r8", "R0", ":", ",", "\n", "\u{0}", "#-"];
+                const JUNK: [&str; 32] = ["é", "😀", "\"", "\\", ";", "#", "x", "0x", ".", ".fill", ".blkw", ".stringz", ".break", ".end", ".orig", "#99999", "xFFFFF",
+                                           "r8", "R0", ":", ",", "\n", "\u{0}", "#-", "65536", "100000", "0000090210", "12", "-5", "+7", "0", "\r\n"];
                 for _ in 0..n {
                     let ast = random_program(&mut rng, true);
                     let wild = rng.chance(1, 2);
@@ -648,6 +648,11 @@ fn total_main(args: &Args) {
                         texts.push(format!("top .blkw x{:X}\n{}\n", n, tail));
                         texts.push(format!("top .blkw x8000\n.blkw x{:X}\n{}\n", n - 0x8000, tail));
                     }
+                }
+                // numbers written without # or x (they lex as labels) wherever a number or label is expected
+                for t in [".blkw 100000", ".fill 65536", ".FILL 0000090210", ".fill 12", ".blkw 3\nhalt", "add r0 r0 5", "br 3", "ld r0 70000", ".orig 12288", ".stringz 5",
+                          "trap 37", "ldr r0 r1 99999", ".fill -5", ".blkw +7", "jsr 4294967296", ".fill 18446744073709551616"] {
+                    texts.push(format!("{}\n", t));
                 }
                 texts.push(".blkw #-1\nhalt\n".to_string());
                 texts.push(".blkw #-32768\n.blkw #-32768\nhalt\n".to_string());
